@@ -2,7 +2,7 @@ HOOKS = {
     "guard": "verif",
     "enable": "go build -tags verif (the harness in /verif/harness is always built with -tags verif against /repo's working tree)",
     "baseline_off_cmd": "cd /repo && GOFLAGS=-mod=mod GOPROXY=off GOSUMDB=off GOTOOLCHAIN=local go test -vet=off -count=1 -timeout 25m ./...",
-    "source_commits": [],
+    "source_commits": ["0a60dfa", "269446f"],
     "add_only": True,
 }
 
@@ -61,5 +61,9 @@ CLAIMED["C06"] = {"text": "Match / SetAdmits / Select / Satisfied are specified 
 CLAIMED["C17"] = {"text": "The dpkg changelog format is specified in TLA+ (entry model, renderer with entry end offsets, expected parse, and the relation AllowedCut saying what parsing a prefix may return: exactly k entries at an entry boundary, all-or-error when only the final newline is missing, an error inside an entry). TLC renders all changelogs of the bounded model; the real Parse runs on the full text and on every prefix, ParseOne repeatedly, and on single-byte corruptions; the ParseOne/Parse line machine is model-checked for 'all entries or an error'.",
                   "design_ref": "3/C17", "note": _TB + " Timestamps are compared as civil fields plus zone offset (no epoch arithmetic in TLC).",
                   "technique": "TLA+ changelog renderer + truncation relation; every-prefix fault enumeration judged by TLC; line machine model-checked"}
+
+CLAIMED["C20"] = {"text": "Copy/Move/Remove are specified as a TLA+ state machine at system-call granularity (open/create/write/close per copied file, one rename or unlink per moved/removed file, validation first, cleanup of a failed control-file copy) with one injected failure at any step; TLC checks ControlLast, ErrorMeansAbsent, RemoveLast, SuccessPost and Confined in every reachable state (each is a possible crash state and a possible watcher's view). Every scenario is then executed on a real temporary tree; the kernel's inotify event order, the returned error, the handle and before/after snapshots are validated by TLC on every prefix of the event sequence.",
+                  "design_ref": "3/C20", "note": _TB + " Failure injection uses natural faults plus one verif-tagged failpoint in internal.Copy; crash points are prefixes of the observed event sequence.",
+                  "technique": "TLC model checking of a syscall-level fault model; inotify traces of real runs validated by TLC on every prefix"}
 
 NOT_APPLICABLE = {}
